@@ -153,6 +153,11 @@ class Harness:
         # witnesses in must_unsat must come back UNSATISFIABLE/UNREACHABLE
         self.should_panic = should_panic
         self.must_unsat = set(must_unsat)
+        # optional = a deep harness whose budget was not validated on this image: when it
+        # runs out of time or memory it is reported as "not decided" (evidence + stdout)
+        # and contributes nothing to the claim, instead of turning the whole check
+        # inconclusive; a counterexample from it is replayed and reported like any other
+        self.optional = False
 
     def rust(self):
         attrs = ["#[cfg(kani)]", "#[kani::proof]", "#[kani::unwind(%d)]" % self.unwind]
